@@ -52,7 +52,7 @@ def check(out, sub, sa, case, g, rng, tag, fixed_pts=()):
                 out.bad(sub + "/tiling/overlap", "%s areas %s-%s and %s-%s" % (tag, S[i], E[i], S[j], E[j]))
                 break
     # point assignment: random points + points on faces / edges / corners of areas
-    pts = [tuple(float(a[d] + (b[d] - a[d]) * rng.random()) for d in range(dim)) for _ in range(12)]
+    pts = [tuple(min(float(b[d]), float(a[d] + (b[d] - a[d]) * rng.random())) for d in range(dim)) for _ in range(12)]
     for _ in range(12):
         i = int(rng.integers(0, n))
         p = []
@@ -134,15 +134,22 @@ def check(out, sub, sa, case, g, rng, tag, fixed_pts=()):
 def run(case):
     out = Outcome()
     sub = "history"
-    g = drive.fit_to_box(drive.driver_function(case["dim"], case["fseed"]), case["a"], case["b"])
+    g = drive.case_function(case)
     f = drive.vector_function([g])
     sa, op = drive.build_es(case, f)
     rng = np.random.default_rng(case["fseed"] + 1)
     a_, b_ = np.array(case["a"]), np.array(case["b"])
     m = 9 if case["dim"] == 2 else 5
-    fixed_pts = [tuple(float(a_[d] + (b_[d] - a_[d]) * i[d] / (m - 1)) for d in range(case["dim"]))
-                 for i in itertools.product(range(m), repeat=case["dim"])]
-    fixed_pts += [tuple(float(a_[d] + (b_[d] - a_[d]) * rng.random()) for d in range(case["dim"])) for _ in range(10)]
+    # lattice points by repeated bisection (the arithmetic of the splits), the last one is b itself: a + (b - a) * 1 can
+    # exceed b by an ulp for boxes in decimal units and would lie outside the domain
+    lat = []
+    for d in range(case["dim"]):
+        xs = [float(a_[d]), float(b_[d])]
+        while len(xs) < m:
+            xs = sorted(set(xs + [(x + y) / 2 for x, y in zip(xs, xs[1:])]))
+        lat.append(xs)
+    fixed_pts = [tuple(lat[d][i[d]] for d in range(case["dim"])) for i in itertools.product(range(m), repeat=case["dim"])]
+    fixed_pts += [tuple(min(float(b_[d]), float(a_[d] + (b_[d] - a_[d]) * rng.random())) for d in range(case["dim"])) for _ in range(10)]
     st_ = dict(ext=0, spl=0, steps=0, before=None, lmax0=case["lmax"], single=0, maxareas=0)
 
     def on_eval(k):
@@ -163,6 +170,7 @@ def run(case):
 
     drive.run_history(sa, case, on_eval=on_eval, before_refine=before_refine, after_refine=after_refine)
     out.nontrivial = bool(st_["ext"] and st_["spl"])
+    out.cls(drive.scale_class(case))
     out.cls("version=%d" % case["version"], "estimator=%s" % case["estimator"], "boundary=%s" % case["boundary"],
             "auto=%s" % case["auto"], "ssd=%s" % case["ssd"])
     if st_["ext"]:
@@ -182,7 +190,7 @@ def run(case):
 
 
 def strategy(tier):
-    return drive.st_es_case(tier=tier)
+    return drive.st_es_case(tier=tier, scales=True)
 
 
 def selftest():
